@@ -23,9 +23,14 @@ SPEC_DIR = os.path.join(vlib.SPEC, "limits")
 
 CONST_ORDER = ["Denom", "DepositDenom", "OtherDenom", "UnitCPU", "UnitMem", "UnitSto",
                "MinUnitCPU", "MaxUnitCPU", "MaxGroupCPU", "MinUnitMem", "MaxUnitMem", "MaxGroupMem",
-               "MinUnitSto", "MaxUnitSto", "MaxGroupSto", "MinUnitCount", "MaxUnitCount",
+               "MinUnitSto", "MaxUnitSto", "MaxGroupSto",
+               "MinUnitCPUB", "MaxUnitCPUB", "MaxGroupCPUB", "MinUnitMemB", "MaxUnitMemB", "MaxGroupMemB",
+               "MinUnitStoB", "MaxUnitStoB", "MaxGroupStoB", "MinUnitCount", "MaxUnitCount",
                "MinUnitPrice", "MaxUnitPrice", "MaxGroupCount", "MaxGroupUnits", "VersionLen", "MinDeposit", "Funds", "BaseDSeq",
                "MidCPU", "MidMem", "MidSto", "MidOff", "MidCount", "MidPrice", "MidDeposit", "BuildSteps"]
+
+
+BOFF = 524288
 
 
 def interior(consts, seed):
@@ -57,6 +62,8 @@ def render_cfg(consts, tier, impl, kind, fams=None):
              "    Fams = {%s}" % ", ".join('"%s"' % f for f in (fams or ALL_FAMS))]
     for k in CONST_ORDER:
         v = consts[k]
+        if k.endswith("B") and k[:-1] in consts and not isinstance(v, str):
+            v = int(v) + BOFF                 # `b` parts of the limits: offset, cfg files have no negative numbers
         lines.append("    %s = %s" % (k, json.dumps(v) if isinstance(v, str) else int(v)))
     if kind in ("mc", "mc_noexport"):
         lines += ["INIT Init", "NEXT Next",
@@ -108,7 +115,7 @@ FAM_GROUPS = {
 def j1_one(consts, tier, impl, fams, export, timeout):
     cfg = render_cfg(consts, tier, impl, "mc" if export else "mc_noexport", fams)
     return vlib.tlc(SPEC_DIR, "Limits", "MC_gen.cfg", extra_files={"MC_gen.cfg": cfg}, timeout=timeout, deadlock=False,
-                    heap="4g", workers=max(2, vlib.NCPU // 4))
+                    heap="3g", workers=max(2, vlib.NCPU // 4))
 
 
 def j1(consts, tier, impl, export=True, timeout=1500):
@@ -128,7 +135,7 @@ def j1_sim(consts, num, seed, timeout=900, kind="sim"):
         c["BuildSteps"] = 5
     cfg = render_cfg(c, "quick", "intended", kind)
     return vlib.tlc(SPEC_DIR, "Limits", "SIM_gen.cfg", extra_files={"SIM_gen.cfg": cfg}, timeout=timeout,
-                    workers=1, simulate=dict(num=num, depth=c["BuildSteps"] + 3, seed=seed), deadlock=False)
+                    workers=1, simulate=dict(num=num, depth=c["BuildSteps"] + 3, seed=seed), deadlock=False, heap="1500m")
 
 
 def run_harness(vh, msgs, seed, workdir, name="trace"):
@@ -148,10 +155,10 @@ def judge(consts, trace_path, timeout=1500):
     n = sum(1 for _ in open(trace_path))
     cfg = render_cfg(consts, "quick", "intended", "trace")
     r = vlib.tlc(SPEC_DIR, "LimitsTrace", "TRACE_gen.cfg", extra_files={"TRACE_gen.cfg": cfg},
-                 copy_files={"trace.ndjson": trace_path}, workers=1, timeout=timeout, deadlock=False, heap="6g")
+                 copy_files={"trace.ndjson": trace_path}, workers=1, timeout=timeout, deadlock=False, heap="4g")
     if not r.ok:
-        raise vlib.Inconclusive("LimitsTrace: TLC failed on %s (violated=%s)\n%s" % (
-            trace_path, r.violated, (r.error or r.out[-3000:])))
+        raise vlib.Inconclusive("LimitsTrace: TLC failed on %s (rc=%s violated=%s)\n%s" % (
+            trace_path, r.rc, r.violated, (r.error or r.out[-3000:])))
     verdicts = [v for v in printed_json(r.out) if "p1" in v]
     if len(verdicts) != n or r.distinct != n + 1:
         raise vlib.Inconclusive("LimitsTrace judged %d of %d lines (distinct states %d)" % (len(verdicts), n, r.distinct))
@@ -250,7 +257,7 @@ def run(pid, tier, seed, replay):
     nsim = 600 if tier == "quick" else 8000
     sim_jobs = [("sim", seed), ("sim2", seed + 1)] if tier == "quick" else \
         [(k, seed + 1000 * i + j) for i in range(3) for j, k in enumerate(("sim", "sim2"))]
-    with ThreadPoolExecutor(max_workers=2 + len(sim_jobs)) as ex:
+    with ThreadPoolExecutor(max_workers=5) as ex:       # j1 itself fans out into one TLC per family group
         f_main = ex.submit(j1, consts, tier, "intended", True, 2400)
         f_asf = ex.submit(j1, consts, "tiny", "asfound", False, 600)
         f_sims = [ex.submit(j1_sim, consts, nsim, sd, 1800, kind) for kind, sd in sim_jobs]
@@ -276,7 +283,8 @@ def run(pid, tier, seed, replay):
     sim = []
     for rs in rss:
         if not rs.ok:
-            raise vlib.Inconclusive("J1 simulation failed: violated=%s\n%s" % (rs.violated, (rs.error or rs.out[-2000:])))
+            raise vlib.Inconclusive("J1 simulation failed: rc=%s violated=%s\n%s" % (
+                rs.rc, rs.violated, (rs.error or rs.out[-600:])))
         sim += [x for x in printed_json(rs.out) if "verdict" in x]
     vlib.log("[C19] J1: %d messages enumerated (%d distinct states) + %d simulated, as-found variant violates %s, %.1fs" % (
         len(exported), states, len(sim), ra.violated, time.time() - t1))
@@ -300,7 +308,7 @@ def run(pid, tier, seed, replay):
 
     # ---- J3: TLC judges the recorded lines
     t2 = time.time()
-    verdicts, nchunks = judge_chunks(consts, trace, work, chunk=4000 if tier == "quick" else 10000, par=min(6, vlib.NCPU))
+    verdicts, nchunks = judge_chunks(consts, trace, work, chunk=1700 if tier == "quick" else 6000, par=min(4, vlib.NCPU))
     vlib.log("[C19] J3: %d lines judged by TLC in %d runs, %.1fs" % (len(verdicts), nchunks, time.time() - t2))
     if len(verdicts) != len(msgs):
         raise vlib.Inconclusive("J3 judged %d of %d lines" % (len(verdicts), len(msgs)))
